@@ -29,19 +29,25 @@ theorem classify_spec (a b : Option Nat) :
         rcases hx with rfl | rfl <;> rcases hy with rfl | rfl <;> rfl
       · simp [h]
 
-/-- Any other ploidy is a ploidy error, whatever the alleles are. -/
-theorem classify_ploidy (l : List (Option Nat)) (h : l.length ≠ 2) : classify l = .ploidyError := by
-  match l, h with
-  | [], _ => rfl
-  | [_], _ => rfl
-  | [_, _], h => exact absurd rfl h
-  | _ :: _ :: _ :: _, _ => rfl
+/-- Any other ploidy is a ploidy error, whatever the alleles are — except the single missing allele, which is how a wholly
+    missing genotype is spelled in BCF (and `|.` in VCF text): that one is missing. -/
+theorem classify_ploidy (l : List (Option Nat)) (h : l.length ≠ 2) (h1 : l ≠ [none]) : classify l = .ploidyError := by
+  match l, h, h1 with
+  | [], _, _ => rfl
+  | [none], _, h1 => exact absurd rfl h1
+  | [some _], _, _ => rfl
+  | [_, _], h, _ => exact absurd rfl h
+  | _ :: _ :: _ :: _, _, _ => rfl
+
+theorem classify_single_missing : classify [none] = .skipped .missing := by
+  rfl
 
 /-- The classification never yields an allele count above two. -/
 theorem classify_range (l : List (Option Nat)) (k : Nat) (h : classify l = .genotype k) : k ≤ 2 := by
   match l, h with
   | [], h => simp [classify] at h
-  | [_], h => simp [classify] at h
+  | [none], h => simp [classify] at h
+  | [some _], h => simp [classify] at h
   | _ :: _ :: _ :: _, h => simp [classify] at h
   | [a, b], h =>
     rw [classify_spec] at h
@@ -55,7 +61,7 @@ theorem parseGT_phasing (s : List Char) :
     parseGT (s.map (fun c => if c = '|' then '/' else c)) = parseGT s := by
   show parseGT (s.map unphase) = parseGT s
   unfold parseGT
-  rw [splitGT_map_unphase]
+  rw [stripLeadSep_map_unphase, splitGT_map_unphase]
   by_cases h : s = ['.']
   · rw [if_pos h, if_pos ((map_unphase_eq_dot s).2 h)]
   · rw [if_neg h, if_neg (fun h' => h ((map_unphase_eq_dot s).1 h'))]
@@ -77,10 +83,29 @@ private theorem renderGT_eq (al : List (Option Nat)) (seps : List Char) : render
 /-- parseGT_total: every GT string of the grammar alleles {., digits} x separators {/,|} x ploidy ≥ 1 parses to the
     allele list it spells (the lone `.` being the whole-field-missing spelling). -/
 theorem parseGT_render (al : List (Option Nat)) (seps : List Char) (hne : al ≠ [])
-    (hs : ∀ c ∈ seps, c = '/' ∨ c = '|') (hdot : al ≠ [none]) :
+    (hs : ∀ c ∈ seps, c = '/' ∨ c = '|') (hdot : al ≠ [none]) (hfit : ∀ n, some n ∈ al → n < 2 ^ 64) :
     parseGT (renderGT al seps) = some (some al) := by
   rw [renderGT_eq]
-  exact parseGT_gtStr al seps hne hs hdot
+  exact parseGT_gtStr al seps hne hs hdot hfit
+
+/-- … and an allele index that does not fit the machine word makes the whole GT string unparsable (the record is refused with
+    "invalid allele"), wherever it stands. -/
+theorem parseGT_index_overflow (al : List (Option Nat)) (seps : List Char) (hne : al ≠ [])
+    (hs : ∀ c ∈ seps, c = '/' ∨ c = '|') (hbig : ∃ n, some n ∈ al ∧ 2 ^ 64 ≤ n) :
+    parseGT (renderGT al seps) = none := by
+  rw [renderGT_eq]
+  exact parseGT_gtStr_big al seps hne hs hbig
+
+/-- A phasing separator in front of the first allele (VCF 4.4) does not change how the genotype is classified. -/
+theorem parseGT_leading_sep (c : Char) (hc : c = '/' ∨ c = '|') (s : List Char)
+    (hs : ∀ d, s.head? = some d → d ≠ '/' ∧ d ≠ '|') :
+    (parseGT (c :: s)).map classifyField = (parseGT s).map classifyField := by
+  exact parseGT_cons_sep c hc s hs
+
+/-- A `+` in front of an allele index is accepted (`usize::from_str`) and means the same index. -/
+theorem parseAllele_plus (n : Nat) (h : n < 2 ^ 64) :
+    parseAllele ('+' :: Nat.toDigits 10 n) = some (some n) ∧ parseAllele (Nat.toDigits 10 n) = some (some n) := by
+  exact ⟨parseAllele_plus_toDigits n h, parseAllele_toDigits n h⟩
 
 theorem parseGT_dot : parseGT ['.'] = some none := by
   rfl
@@ -117,6 +142,8 @@ theorem unselected_ignored (map : List (String × Nat)) (cols : List String) (gt
 /-! non-vacuity -/
 example : classify [some 0, some 2] = .skipped .multiallelic ∧ classify [some 1, some 1] = .genotype 2
     ∧ classify [none, some 1] = .skipped .missing ∧ classify [some 1] = .ploidyError
-    ∧ classify [some 0, some 1, some 1] = .ploidyError := by decide
+    ∧ classify [some 0, some 1, some 1] = .ploidyError ∧ classify [none] = .skipped .missing ∧ classify [] = .ploidyError := by decide
+example : parseGT "|0/1".toList = some (some [some 0, some 1]) ∧ parseGT "0/+1".toList = some (some [some 0, some 1])
+    ∧ parseGT "0/18446744073709551616".toList = none ∧ parseGT "0//1".toList = none ∧ parseGT "|.".toList = some (some [none]) := by decide
 
 end Sfs.C08
